@@ -316,9 +316,9 @@ def site_language(model: Model, regex_names: List[str], patterns: Dict[str, str]
                     if run.ctx.atom_info.get(key, {}).get("kind") == "convert":
                         truth = val == "ok"
                     lits.append((sig, bool(truth)))
-                elif key[0] in ("int-of-float", "int-digit-limit"):
+                elif key[0] in ("int-of-float", "int-digit-limit", "decimal-range"):
                     continue  # magnitude, not lexical shape
-            magnitude = any(isinstance(k, tuple) and k[0] in ("int-of-float", "int-digit-limit") and val != "ok" for k, val in run.ctx.world.items())
+            magnitude = any(isinstance(k, tuple) and k[0] in ("int-of-float", "int-digit-limit", "decimal-range") and val != "ok" for k, val in run.ctx.world.items())
             per_path.append((accepted, lits, (run, crash if (include_magnitude or not magnitude) else None)))
     except AtomError as err:
         out.undecided = f"predicate outside the modelled idioms: {err}"
@@ -354,7 +354,11 @@ def site_language(model: Model, regex_names: List[str], patterns: Dict[str, str]
         if w is not None:
             mag = any(isinstance(k, tuple) and k[0] == "int-of-float" and val != "ok" for k, val in _run.ctx.world.items())
             digits = any(isinstance(k, tuple) and k[0] == "int-digit-limit" and val != "ok" for k, val in _run.ctx.world.items())
-            if digits:
+            decrange = any(isinstance(k, tuple) and k[0] == "decimal-range" and val != "ok" for k, val in _run.ctx.world.items())
+            if decrange:
+                if cur.minimize().is_infinite():
+                    out.crashes.append(f"{crash} (lexemes of the shape of {w!r} with an exponent of 19 or more digits: decimal.Decimal refuses them with InvalidOperation, which is not a ValueError)")
+            elif digits:
                 # only reachable if the lexemes taking this path can be longer than the interpreter's digit limit
                 if cur.minimize().is_infinite():
                     out.crashes.append(f"{crash} (lexemes of the shape of {w!r} with more than 4300 digits: int() refuses them with a ValueError)")
